@@ -152,47 +152,85 @@ def check_literal_language(chk):
 def check_parsers(chk):
     vmod = chk.repo.module('value')
     func = vmod.func('value_parse_number', 'C13.N')
-    rets = [n for n in walk_no_nested(func) if isinstance(n, ast.Return) and n.value is not None and not (isinstance(n.value, ast.Constant) and n.value.value is None)]
-    if not rets:
-        raise Unrecognised('C13.N', 'value_parse_number returns no value', vmod.rel)
-    for r in rets:
-        # the returned expression derives from float(...)
-        val = r.value
-        names = {n.id for n in ast.walk(val) if isinstance(n, ast.Name)}
-        guarded = False
-        # an isnan/isinf/isfinite test on the same value precedes the return on its path
-        for n in walk_no_nested(func):
-            if isinstance(n, ast.If):
-                t = norm(n.test)
-                mentions = any(nm in t for nm in names) or (isinstance(val, ast.Call) and norm(val) in t)
-                if mentions and (('isnan' in t and 'isinf' in t) or 'isfinite' in t):
-                    if any(isinstance(s, ast.Return) and (s.value is None or norm(s.value) == 'None') for s in n.body) and n.lineno < r.lineno:
-                        guarded = True
-                    if 'isfinite' in t and any(s is r for s in ast.walk(n)):
-                        guarded = True
-        if guarded:
-            chk.ok('C13.N', f'value_parse_number: {norm(r)} only after the non-finite test')
+    # abstract execution: float(text) is an oracle with four outcomes; math.isnan / isinf / isfinite answer from the outcome
+    from ..absint import Interp, Sym, RaiseSig
+
+    class NumInterp(Interp):
+        outcome = 'finite'
+
+        def builtin_hook(self, name, args, e):
+            if name == 'float' and args and isinstance(args[0], Sym) and args[0].kind == 'text':
+                if self.outcome == 'ValueError':
+                    raise RaiseSig('ValueError', ('could not convert string to float',), e)
+                return Sym('num', self.outcome)
+            return NotImplemented
+
+        def method_hook(self, base, m, args, e):
+            if isinstance(base, tuple) and base and base[0] == 'module' and base[1] == 'math' and args and isinstance(args[0], Sym) and args[0].kind == 'num':
+                k = args[0].args[0]
+                if m == 'isnan':
+                    return k == 'nan'
+                if m == 'isinf':
+                    return k == 'inf'
+                if m == 'isfinite':
+                    return k == 'finite'
+            if isinstance(base, Sym) and base.kind == 'text' and m in ('strip', 'lower'):
+                return base
+            return NotImplemented
+
+        def compare(self, op, a, b, node):
+            for x, y in ((a, b), (b, a)):
+                if isinstance(x, Sym) and x.kind == 'num' and isinstance(op, (ast.Eq, ast.NotEq)):
+                    if isinstance(y, Sym) and y.kind == 'num':
+                        r = x.args[0] != 'nan'         # x != x is the NaN idiom
+                        return r if isinstance(op, ast.Eq) else not r
+            return super().compare(op, a, b, node)
+    it = NumInterp(vmod, 'C13.N')
+    it.repo = chk.repo
+    for outcome, want in (('finite', Sym('num', 'finite')), ('nan', None), ('inf', None), ('ValueError', None)):
+        it.outcome = outcome
+        it.depth = 0
+        try:
+            got = ('value', it.call_function(func, [Sym('text')], func))
+        except RaiseSig as sig:
+            got = ('raise', sig.cls)
+        desc = {'finite': 'text that float() converts to a finite number', 'nan': 'a NaN spelling', 'inf': 'an infinity spelling or text beyond the double range ("1e999")',
+                'ValueError': 'text float() rejects'}[outcome]
+        if got == ('value', want):
+            chk.ok('C13.N', f'value_parse_number: {desc} -> {"the number" if want is not None else "null"} (abstract execution)')
+        elif outcome == 'nan' and any(isinstance(x, ast.Call) and isinstance(x.func, ast.Attribute) and x.func.attr in ('match', 'fullmatch', 'search') for x in ast.walk(func)):
+            chk.unrec('C13.N', 'value_parse_number pre-validates the text with a regex: whether NaN spellings reach float() is not decided', vmod.rel)
         else:
-            chk.bad('C13.N', vmod, 'value_parse_number', norm(r),
-                    'the parsed value is returned without an isnan/isinf test: text beyond the double range ("1e999") or "nan"/"inf" spellings yield a non-finite number instead of null', node=r)
-    floats = [n for n in walk_no_nested(func) if isinstance(n, ast.Call) and call_name(n) == 'float']
-    from ..raises import caught_by
-    for c in floats:
-        if caught_by(c, 'ValueError', func) is not None:
-            chk.ok('C13.N', 'value_parse_number: float() ValueError -> None')
-        elif any(isinstance(n, ast.Call) and isinstance(n.func, ast.Attribute) and n.func.attr in ('match', 'fullmatch') for n in walk_no_nested(func)):
-            chk.note('value_parse_number: float() is not under a ValueError handler but the text is pre-validated by a regex (not re-verified here)')
-        else:
-            chk.bad('C13.N', vmod, 'value_parse_number', norm(c), 'float(text) outside a ValueError handler: text that is not a number raises instead of yielding null', node=c)
+            chk.bad('C13.N', vmod, 'value_parse_number', f'{outcome}: {got}',
+                    f'value_parse_number given {desc} ' + (f'raises {got[1]}' if got[0] == 'raise' else f'returns {got[1]!r}') + f'; it must return {"the number" if want is not None else "null"} '
+                    '(non-finite numbers are not BareScript numbers; malformed text is null)', node=func)
     func = vmod.func('value_parse_integer', 'C13.N')
-    ints = [n for n in walk_no_nested(func) if isinstance(n, ast.Call) and call_name(n) == 'int']
-    if not ints:
-        raise Unrecognised('C13.N', 'value_parse_integer does not call int()', vmod.rel)
-    for c in ints:
-        if caught_by(c, 'ValueError', func) is not None:
-            chk.ok('C13.N', 'value_parse_integer: int(text, radix) ValueError -> None')
-        else:
-            chk.bad('C13.N', vmod, 'value_parse_integer', norm(c), 'int(text, radix) outside a ValueError handler', node=c)
+
+    class IntInterp(Interp):
+        outcome = 'ok'
+
+        def builtin_hook(self, name, args, e):
+            if name == 'int' and args and isinstance(args[0], Sym) and args[0].kind == 'text':
+                if self.outcome == 'ValueError':
+                    raise RaiseSig('ValueError', ('invalid literal',), e)
+                return Sym('int', args[1] if len(args) > 1 else 10)
+            return NotImplemented
+    it2 = IntInterp(vmod, 'C13.N')
+    it2.repo = chk.repo
+    for outcome in ('ok', 'ValueError'):
+        for radix in (10, 16):
+            it2.outcome = outcome
+            it2.depth = 0
+            try:
+                got = ('value', it2.call_function(func, [Sym('text'), radix], func))
+            except RaiseSig as sig:
+                got = ('raise', sig.cls)
+            want = ('value', Sym('int', radix) if outcome == 'ok' else None)
+            if got == want:
+                chk.ok('C13.N', f'value_parse_integer (radix {radix}): {"int(text, radix)" if outcome == "ok" else "text int() rejects -> null"} (abstract execution)')
+            else:
+                chk.bad('C13.N', vmod, 'value_parse_integer', f'{outcome}, radix {radix}: {got}',
+                        f'value_parse_integer with radix {radix} ' + (f'raises {got[1]}' if got[0] == 'raise' else f'returns {got[1]!r}') + f'; it must return {"int(text, radix)" if outcome == "ok" else "null"}', node=func)
     # library wrappers return the helper results unchanged
     libfuncs = {lf.name: lf for lf in library_functions(chk.repo, 'C13.N')}
     for name, helper in (('numberParseFloat', 'value_parse_number'), ('numberParseInt', 'value_parse_integer')):
@@ -216,6 +254,8 @@ def run(chk):
     chk.guard('C13.D', check_sites, chk)
     chk.guard('C13.L', check_literal_language, chk)
     chk.guard('C13.N', check_parsers, chk)
+    from .c02 import check_number_literals
+    chk.guard('C13.L', check_number_literals, chk, 'C13.L', True)
     # string concatenation goes through value_string: shared with C03.T
     from . import c03
     from ..rt import EvalExpr
